@@ -728,3 +728,75 @@ Proof.
     pose proof (left_not_admitted c evs q Hwf Hl) as Hn. rewrite X2 in Hn. cbn [amap] in Hn.
     rewrite X1 in Hn. rewrite (nodupk_In_aget _ _ _ N2 Hin) in Hn. discriminate.
 Qed.
+
+(* ------------------------------------------------------------------ the hypotheses are satisfiable *)
+Module PeersExamples.
+Definition c0 := mkCfg 125 5 10.
+Definition p1 := mkPeer 1 3 1 Inbound.
+Definition p2 := mkPeer 2 3 1 Outbound.
+Definition p3 := mkPeer 3 7 2 Outbound.
+Definition p4 := mkPeer 4 7 2 Inbound.
+Definition p5 := mkPeer 5 3 1 Persistent.
+
+Ltac wf_tac :=
+  split; [cbn; repeat constructor; cbn; intuition discriminate
+         | cbn; intros p q Hp Hq Hpid;
+           repeat (destruct Hp as [Hp|Hp]; [subst p|]); try contradiction;
+           repeat (destruct Hq as [Hq|Hq]; [subst q|]); try contradiction;
+           first [reflexivity | discriminate Hpid]].
+
+Definition p9 := mkPeer 9 3 1 Inbound.
+Definition hist1 := [Add p1 0; Add p2 0; Add p5 0; Ban 7 1; Add p3 2; Done p1; Done p9].
+
+Example hist1_wf : wf hist1.
+Proof. wf_tac. Qed.
+
+(* count_le_max / per_host_le_max / conn_count_exact / group_count_exact on hist1:
+   three peers admitted (p1 left again), host 3 counts one (p2; the persistent p5 is exempt),
+   group 1 counts two (p2, p5) *)
+Example hist1_values :
+  total (run c0 init hist1) = 2 /\ counted_of_host (run c0 init hist1) 3 = 1 /\
+  cget (ccount (run c0 init hist1)) 3 = 1 /\ outbound_of_group (run c0 init hist1) 1 = 2 /\
+  cget (groups (run c0 init hist1)) 1 = 2.
+Proof. vm_compute. repeat split. Qed.
+
+Example hist1_exact : cget (ccount (run c0 init hist1)) 3 = counted_of_host (run c0 init hist1) 3.
+Proof. exact (conn_count_exact c0 hist1 3 hist1_wf). Qed.
+
+(* banned_not_admitted_before_expiry: host 7 banned at 1 for 10 units, p3 (host 7) knocks at 2 *)
+Example banned_ex :
+  step c0 (run c0 init ([Add p1 0; Add p2 0] ++ Ban 7 1 :: [Done p1])) (Add p3 2)
+  = (run c0 init ([Add p1 0; Add p2 0] ++ Ban 7 1 :: [Done p1]), false).
+Proof.
+  apply (banned_not_admitted_before_expiry c0 [Add p1 0; Add p2 0] [Done p1] 7 1 p3 2).
+  - reflexivity.
+  - cbn. lia.
+  - cbn. lia.
+Qed.
+
+(* admitted_after_expiry: the same host at 11 = 1 + 10 *)
+Example readmitted_ex :
+  snd (step c0 (run c0 init hist1) (Add p4 11)) = true /\
+  admitted (fst (step c0 (run c0 init hist1) (Add p4 11))) p4.
+Proof.
+  apply admitted_after_expiry.
+  - unfold hist1. wf_tac.
+  - intros t0 Hin. cbn in Hin. repeat (destruct Hin as [Hin|Hin]; try discriminate Hin); try contradiction.
+    inversion Hin. subst. cbn. lia.
+  - vm_compute. reflexivity.
+  - vm_compute. reflexivity.
+Qed.
+
+(* host_counter_returns_to_zero: both counted peers of host 3 have left *)
+Definition hist2 := [Add p1 0; Add p2 0; Add p3 0; Done p2; Add p5 1; Done p1].
+Example zero_ex : cget (ccount (run c0 init hist2)) 3 = 0.
+Proof.
+  apply host_counter_returns_to_zero.
+  - unfold hist2. wf_tac.
+  - intros p Hin Hh Hk. cbn in Hin.
+    destruct Hin as [E|[E|[E|[E|[]]]]]; subst p; try discriminate Hh.
+    + exists [], 0, [Add p2 0; Add p3 0; Done p2; Add p5 1], []. reflexivity.
+    + exists [Add p1 0], 0, [Add p3 0], [Add p5 1; Done p1]. reflexivity.
+    + exfalso. apply Hk. reflexivity.
+Qed.
+End PeersExamples.
